@@ -50,6 +50,7 @@ CONFIGS = {
     "rel-burst": Config("rel-burst", REL, [(1, [1200, 1200, 1200, 10]), (2, [10]), (2, [1200, 10]), (1, [10])],
                         drop=2, t3=1, maxnet=3),
     # one reliable + one partially reliable (rtx 0) ordered channel, PR message larger than the window share
+    "pr-tiny": Config("pr-tiny", MIX, [(2, [1200, 10]), (1, [10]), (2, [10])], drop=1, t3=1, maxnet=3),
     "pr-small": Config("pr-small", MIX, [(2, [1200, 10]), (1, [10]), (2, [10]), (1, [1200, 10])], drop=1, t3=1, maxnet=3),
     "pr-big": Config("pr-big", MIX, [(2, [1200, 1200, 1200, 1200, 10]), (1, [1200, 10]), (2, [10])], drop=2, t3=1, maxnet=3),
     "pr-mix": Config("pr-mix", MIXU, [(2, [1200, 10]), (3, [1200, 10]), (1, [10]), (3, [10]), (2, [10])],
@@ -68,11 +69,12 @@ SIM_CONFIGS = {
 
 
 def run_tlc(sc, config, invariants, dev=(), timeout=900, coverage=False, workers=16, spec="Spec",
-            properties=(), constraint=True):
+            properties=(), constraint=True, keep_going=False):
     sc.write("MC_SctpAssoc.tla", config.mc_module())
+    args = (["-coverage", "1"] if coverage else []) + (["-continue"] if keep_going else [])
     return T.tlc(sc, "MC_SctpAssoc", config.cfg(invariants, dev, constraint=constraint, spec=spec,
                                                 properties=properties),
-                 workers=workers, args=["-coverage", "1"] if coverage else [], timeout=timeout)
+                 workers=workers, args=args, timeout=timeout)
 
 
 def simulate(sc, config, num, depth, seed, dev=(), timeout=600):
